@@ -176,8 +176,61 @@ pub mod unit {
             vassert!(poll_once(b.as_mut()) == Poll::Ready(v2), "C14.resubmit-result: a submission after completion gets the result of its own processing");
         }
 
+        // ------------------------------------------------------------------------------------
+        // Two submitters track the SAME operation id concurrently: submitter B runs its whole track()
+        // at a solver-chosen synchronisation point of submitter A's track(). Both must end up waiting
+        // on a task that the pipeline's single mark_as_done(id) completes.
+        // ------------------------------------------------------------------------------------
+        static mut B_TASK: Option<Task<u8, u8>> = None;
+        fn submitter_b() {
+            unsafe {
+                if IN_OTHER || DONE { return; }
+                let c = COUNTER;
+                COUNTER += 1;
+                if c != SWITCH_AT { return; }
+                IN_OTHER = true;
+                let saved = tokio::sched::HOOK.take();
+                let tr = (*std::ptr::addr_of!(TRACKER)).as_ref().unwrap();
+                let mut fut = std::pin::pin!(tr.track(1));
+                if let Poll::Ready(t) = poll_once(fut.as_mut()) { B_TASK = Some(t); DONE = true; RAN_INSIDE = true; }
+                tokio::sched::HOOK = saved;
+                IN_OTHER = false;
+            }
+        }
+
+        #[cfg_attr(kani, kani::proof)]
+        #[cfg_attr(kani, kani::unwind(6))]
+        pub fn concurrent_track_of_same_operation() {
+            let switch_at = sym::any_below(6);
+            reset(switch_at);
+            unsafe { B_TASK = None; TRACKER = Some(TaskTracker::new()); tokio::sched::HOOK = Some(submitter_b); }
+            let tracker = unsafe { (*std::ptr::addr_of!(TRACKER)).as_ref().unwrap() };
+            let a_task = {
+                let mut fut = std::pin::pin!(tracker.track(1));
+                let mut r = poll_once(fut.as_mut());
+                if r.is_pending() { r = poll_once(fut.as_mut()); }
+                match r { Poll::Ready(t) => t, Poll::Pending => { sym::assume(false); unreachable!() } }
+            };
+            unsafe { tokio::sched::HOOK = None; }
+            // B tracks now if it did not get scheduled inside A's track()
+            if unsafe { !DONE } {
+                let mut fut = std::pin::pin!(tracker.track(1));
+                match poll_once(fut.as_mut()) { Poll::Ready(t) => unsafe { B_TASK = Some(t) }, Poll::Pending => { sym::assume(false); } }
+            }
+            let b_task = unsafe { (*std::ptr::addr_of!(B_TASK)).as_ref().unwrap() };
+            witness!(unsafe { RAN_INSIDE }, "witness: the second submitter tracked inside the first submitter's track()");
+            // the pipeline finishes the operation once
+            { let mut m = std::pin::pin!(tracker.mark_as_done(1, RESULT)); assert!(poll_once(m.as_mut()).is_ready()); }
+            let ra = { let mut f = std::pin::pin!(a_task.ready()); poll_once(f.as_mut()) };
+            let rb = { let mut f = std::pin::pin!(b_task.ready()); poll_once(f.as_mut()) };
+            vassert!(ra == Poll::Ready(RESULT), "C14.concurrent-track-first: with two concurrent submissions of the same operation the first submitter gets the result");
+            vassert!(rb == Poll::Ready(RESULT), "C14.concurrent-track-second: with two concurrent submissions of the same operation the second submitter gets the result");
+            std::mem::forget(a_task);
+        }
+
         pub fn dispatch(name: &str) -> bool {
             match name {
+                "unit::proofs::concurrent_track_of_same_operation" => concurrent_track_of_same_operation(),
                 "unit::proofs::ready_never_misses_done" => ready_never_misses_done(),
                 "unit::proofs::two_waiters_both_return" => two_waiters_both_return(),
                 "unit::proofs::tracked_submission_completes" => tracked_submission_completes(),
